@@ -491,10 +491,7 @@ def segments_stream(ctx, st, record):
     for r, L, kind in cases:
         stt, geom = call(generate_segmented_cylinder, r, L)
         segs = [(float(g.transform[2, 3]), float(g.height), float(g.radius), True) for g in geom] if stt == 'ok' else stt
-        q = L / (2 * r)
-        if kind == 'random' and math.floor(q) != L // (2 * r):
-            ctx.count('segments-guard-band-skipped')      # L/(2r) rounds up to an integer: Float.floor and Python // differ
-        else:
+        if True:
             def judge(o, segs=segs, r=r, L=L):
                 toks = o[0].split()
                 if isinstance(segs, str):
